@@ -17,6 +17,8 @@ import (
 	"golang.org/x/tools/go/ssa"
 )
 
+var traceCalls = os.Getenv("GOSYM_TRACE") != ""
+
 func mustDeref(t types.Type) types.Type {
 	if p, ok := t.Underlying().(*types.Pointer); ok {
 		return p.Elem()
@@ -105,6 +107,9 @@ func callSSA(i *interpreter, caller *frame, callpos token.Pos, fn *ssa.Function,
 		fr.g = caller.g
 	}
 	name := fn.String()
+	if traceCalls && !i.initMode {
+		fmt.Fprintf(os.Stderr, "%*s-> %s\n", i.depth, "", name)
+	}
 	if i.initMode && fn.Synthetic == "package initializer" && fn.Pkg != i.initPkg {
 		return nil
 	}
